@@ -865,6 +865,8 @@ func main() {
 		size := uint64(1) << uint(ctx.Rng.Intn(4))
 		randomSeq(ctx, size, ctx.Rng.Range(5, 25), true)
 	}
+	// the queue inside its real callers: PAUSE / Pause() while the writer is blocked in a socket write
+	callersStage(ctx)
 	// wake-up hammer (the critical window is tens of nanoseconds wide)
 	hammer(ctx, time.Duration(ctx.Budget(3, 40))*time.Second)
 	// concurrent
